@@ -2267,9 +2267,18 @@ func (m *Msg) WriteToSkipMiddleware(writer io.Writer, middleWareType MiddlewareT
 		middlewares = append(middlewares, m.middlewares[i])
 	}
 	m.middlewares = middlewares
+	defer func() { m.middlewares = origMiddlewares }()
 	mw := &msgWriter{writer: writer, charset: m.charset, encoder: m.encoder}
-	mw.writeMsg(m.applyMiddlewares(m))
-	m.middlewares = origMiddlewares
+	msg := m.applyMiddlewares(m)
+
+	if m.hasSMIME() {
+		if err := m.signMessage(); err != nil {
+			return 0, err
+		}
+	}
+
+	mw.writeMsg(msg)
+	m.headerCount = 0
 	return mw.bytesWritten, mw.err
 }
 
